@@ -247,12 +247,21 @@ func (d *segmentationDescriptor) parseDescriptor(data []byte) error {
 			d.upid = []byte{}
 			// Iterate over the whole MID len(segUpidLen) to get all `n` UPIDs
 			// segUpidLen is in bytes.
+			if buf.Len() < segUpidLen+3 {
+				return gots.ErrInvalidSCTE35Length
+			}
 			for segUpidLen != 0 {
+				if segUpidLen < 2 {
+					return gots.ErrInvalidSCTE35Length
+				}
 				UpidElem := upidSt{}
 				UpidElem.upidType = SegUPIDType(readByte())
 				segUpidLen -= 1
 				UpidElem.upidLen = int(readByte())
 				segUpidLen -= 1
+				if segUpidLen < UpidElem.upidLen {
+					return gots.ErrInvalidSCTE35Length
+				}
 				UpidElem.upid = buf.Next(UpidElem.upidLen)
 				segUpidLen -= UpidElem.upidLen
 				d.mid = append(d.mid, UpidElem)
